@@ -17,6 +17,13 @@ def configs(ctx):
                     continue
                 J = 3 if max(H, W) >= 8 and q not in ('qshift_c', 'qshift_d') and b != 'near_sym_b' else 2
                 items.append((b, q, H, W, J))
+    # the same tables handed in as arrays ("biort (str or tuple of arrays)"), in every array form the preparation
+    # code accepts, on either side: reconstruction must not depend on how the filters were spelled
+    for k, (ffwd, finv) in enumerate(((None, 'row'), ('row', None), ('col', 'flat'), ('list', 'row'), ('flat', 'col'))):
+        b, q = [('near_sym_a', 'qshift_a'), ('legall', 'qshift_06'), ('antonini', 'qshift_b')][k % 3]
+        items.append((b, q, 12, 16, 3, ffwd, finv))
+        if not ctx.quick:
+            items.append(('near_sym_b', 'qshift_c', 10, 12, 2, ffwd, finv))
     return items
 
 
